@@ -1403,6 +1403,9 @@ func init() {
 			}
 		}
 		meta.IndexMap = idx
+		if replay == "" {
+			c04MultiFile(meta)
+		}
 		writeMeta(outDir, meta)
 		fmt.Fprintf(os.Stderr, "C04: %d cases (%d loaded)\n", len(cases), len(trees))
 		_ = sort.Strings
